@@ -131,6 +131,35 @@ def generate(g, tier):
             out = loaded + ['STRING themed', 'STRING default']
         files[main] = text
         cases.append(dict(op='compile_file', file=main, files=files, meta=dict(family='override-' + shape, exp=['ok', out, [], None])))
+    # a pasted file runs under the SAME options as the program it is pasted into, however deep the import sits (second-level
+    # imports, imports inside blocks and functions, long chains under a raised stack limit)
+    for _ in range(count(tier, 40, 300)):
+        where = r.choice(['chain', 'block', 'func', 'loop'])
+        opt = r.choice(['comments', 'flipper-off', 'limit', 'suppress'])
+        libdir = r.choice(['proj', 'proj/lib'])
+        main, a, b = 'proj/main.txt', 'proj/a.txt', f'{libdir}/b.txt'
+        btext = 'REM from b\nSTRING b-out\nALTCHAR 65\nHOLD k'
+        imp_b = f'START {import_name(a, b)}'
+        atext = {'chain': f'REM from a\n{imp_b}\nSTRING a-out', 'block': f'IF TRUE\n    {imp_b}\nSTRING a-out',
+                 'func': f'FUNC ld\n    {imp_b}\nRUN ld\nSTRING a-out', 'loop': f'REPEAT 1\n    IF TRUE\n        {imp_b}\nSTRING a-out'}[where]
+        files = {main: 'REM top\nSTART a\nSTRING end', a: atext, b: btext}
+        if opt == 'comments':
+            opts = dict(include_comments=True)
+            out = ['REM top'] + (['REM from a'] if where == 'chain' else []) + ['REM from b', 'STRING b-out', 'ALTCHAR 65', 'HOLD k', 'STRING a-out', 'STRING end']
+            exp = ['ok', out, [], None]
+        elif opt == 'flipper-off':
+            opts = dict(flipper_commands=False); exp = ['err', 'flipper']
+        elif opt == 'suppress':
+            opts = dict(supress_command_not_exist=True); exp = ['ok', ['STRING b-out', 'ALTCHAR 65', 'HOLD k', 'STRING a-out', 'STRING end'], [], None]
+        else:
+            n = r.randint(22, 30)
+            files = {main: 'START c0\nSTRING end'}
+            for k in range(n): files[f'proj/c{k}.txt'] = (f'START c{k + 1}' if k + 1 < n else 'STRING deep')
+            opts = dict(stack_limit=n + 5); exp = ['ok', ['STRING deep', 'STRING end'], [], None]
+        cases.append(dict(op='compile_file', file=main, files=files, opts=opts, meta=dict(family='options-depth-' + opt, exp=exp)))
+    # START reads the file as it is NOW: the same paths compiled again in the same process after the imported file changed
+    from . import C17
+    cases += [c for c in C17.revisit_histories(g, count(tier, 40, 300)) if c['meta']['family'] in ('revisit-import-content', 'revisit-mixed')]
     # path shapes
     for _ in range(count(tier, 150, 1000)):
         d1 = r.choice(DIRS)
@@ -147,4 +176,5 @@ def generate(g, tier):
 
 
 def oracle(cases, results):
-    return ast_oracle(cases, results, ('out', 'vars'), 'paste')
+    from . import C17
+    return ast_oracle(cases, results, ('out', 'vars'), 'paste') + C17.oracle(cases, results)
